@@ -283,7 +283,8 @@ def gen_case(g):
          "want_final": True,
          "chunks": rng.choice([None, None, [512], [4096, 7]]),
          "pool": {"assign": [rng.randrange(4) for _ in range(rng.randint(1, 4))]},
-         "order": rng.choice([None, "rev", rng.randint(0, 999)]), "operators": h.opnames}
+         "order": rng.choice([None, "rev", rng.randint(0, 999)]), "operators": h.opnames,
+         "fsclock": rng.choice(["fine", "fine", "coarse", "frozen"])}
     return {"A": A, "operators": h.opnames, "long": long_history}
 
 
